@@ -10,6 +10,20 @@ import random
 from .engine import Job
 
 
+def growth_exec(rng):
+    """a scope whose allocations make the temporary stack grow by several blocks, nested in an outer scope that
+    goes on allocating afterwards: the end of the inner scope has to give all of them back"""
+    t = rng.choice([0, 1])
+    cmds = ["s %d push" % t, "s %d alloc %d 8" % (t, rng.choice([16, 100, 1000]))]
+    for _ in range(rng.randint(1, 3)):
+        cmds.append("s %d push" % t)
+        for _ in range(rng.randint(2, 5)):
+            cmds.append("s %d alloc %d %d" % (t, rng.choice([3000, 5000, 9000, 20000, 40000]), rng.choice([8, 16, 64])))
+        cmds += ["s %d check" % t, "s %d pop" % t, "s %d alloc %d 8" % (t, rng.choice([16, 3000])), "s %d check" % t]
+    cmds.append("s %d pop" % t)
+    return ({"name": "growth"}, cmds)
+
+
 def nesting_exec(rng):
     cmds, depth = [], 0
     t = rng.choice([0, 0, 1])
@@ -168,12 +182,13 @@ def jobs_c14(prop, tier, seed, reduced=False):
     J = []
     if reduced:     # the part other properties' checks run (C01, C05): nesting, races, a few planned schedules
         s = 1 if tier == "quick" else 6
-        execs = known_shapes() + [nesting_exec(rng) for _ in range(8 * s)] + [race_exec(rng) for _ in range(20 * s)]
+        execs = known_shapes() + [nesting_exec(rng) for _ in range(8 * s)] + [growth_exec(rng) for _ in range(4 * s)] + [race_exec(rng) for _ in range(20 * s)]
         execs += [par_exec(rng, rng.choice([2, 3])) for _ in range(10 * s)] + planned_execs(10 if tier == "quick" else 200, seed)
         return [Job("base", "temp", "TempTrace", execs, "temp", also=("TempListTrace",))]
     for cfg in ("base", "dbg"):
         execs = known_shapes()
         execs += [nesting_exec(rng) for _ in range(12 * s)]
+        execs += [growth_exec(rng) for _ in range(6 * s)]
         execs += [api_exec(rng, rng.choice([2, 3, 4])) for _ in range(30 * s)]
         execs += [par_exec(rng, rng.choice([2, 3, 4])) for _ in range(40 * s)]
         execs += [race_exec(rng) for _ in range(60 * s)]
